@@ -321,8 +321,68 @@ def ordering(chk, prog):
                    bool(its) and not b.calls_to(r"::(rev|sort|sort_by|sort_by_key|sort_unstable|sort_unstable_by|sort_unstable_by_key|rfold|rfind|next_back|reverse)$"), "")
     ps = prog.bodies.get(TREE + "parse_section")
     if ps:
-        pushes = [t["callee"].split("::")[-1] for blk, t in ps.calls_to(r"Vec::<T, A>::(push|insert|sort|reverse|swap|retain)$|Extend<.*>>::extend$")]
+        pushes = [t["callee"].split("::")[-1] for blk, t in ps.calls_to(r"Vec::<T, A>::(push|insert|sort|sort_by|sort_by_key|reverse|swap|retain|append|splice|drain|truncate|clear|remove|swap_remove|rotate_left|rotate_right|dedup)$|Extend<.*>>::extend$")
+                  if "ConfigNode" in " ".join((t.get("arg_tys") or [])[:1])]
         chk.ob("R3.order", ps.path, "section children are appended in line order", all(p in ("push", "extend") for p in pushes) and len(pushes) >= 2, f"{pushes}")
+        # the list that is returned is the one list that was appended to from the first line on (not a second list that absorbs it:
+        # `included.append(&mut values); values = included` puts an included file's nodes in front of everything before the directive)
+        roots = set()
+        for blk_ in ps.blocks:
+            for s_ in blk_["stmts"]:
+                rv = s_.get("rv")
+                if "pl" in s_ and s_["pl"]["l"] == 0 and rv and rv.get("k") == "agg" and rv.get("variant") == "Ok" and rv.get("ops"):
+                    l_ = core.op_local(rv["ops"][0])
+                    if l_ is not None:
+                        roots.add(l_)
+        single = True
+        detail = []
+        for l_ in roots:
+            # follow plain moves back to the user local
+            seen_ = set()
+            while l_ is not None and l_ not in seen_:
+                seen_.add(l_)
+                ds_ = [d for d in ps.defs().get(l_, []) if not (d[2] == "assign" and d[3]["pl"]["p"])]
+                if len(ds_) == 1 and ds_[0][2] == "assign" and ds_[0][3]["rv"]["k"] == "use" and core.op_local(ds_[0][3]["rv"]["o"]) is not None and not ds_[0][3]["rv"]["o"]["pl"]["p"]:
+                    l_ = core.op_local(ds_[0][3]["rv"]["o"])
+                    continue
+                if len(ds_) == 1 and ds_[0][2] == "assign" and ds_[0][3]["rv"]["k"] == "agg" and ds_[0][3]["rv"].get("agg") in ("adt", "tuple"):
+                    # the list sits inside the value that is returned (Section(name, values), (values, rest), ...)
+                    inner = [core.op_local(o) for o in ds_[0][3]["rv"]["ops"] if core.op_local(o) is not None and "Vec<humphrey_server::config::tree::ConfigNode" in (ps.local_ty(core.op_local(o)) or "")]
+                    if len(inner) == 1:
+                        l_ = inner[0]
+                        continue
+                if len(ds_) != 1 or ds_[0][2] != "call" or not core.re.search(r"Vec::<T>::(new|with_capacity)$", ds_[0][3].get("callee") or ""):
+                    single = False
+                    detail.append(f"{ps.local_name(l_) or l_}: {len(ds_)} definition(s)")
+                break
+        chk.ob("R3.order", ps.path, "the returned list is the single list the section's lines were appended to", single and bool(roots), f"{detail}")
+
+
+def per_pattern_routes(chk, prog):
+    """R3: every pattern of a comma-separated route header gets the section's settings — no field of a RouteConfig is taken out of a
+    value that the previous pattern already consumed (`Option::take`, `mem::take`, `pop`, an iterator's `next`)."""
+    fn = CFG + "parse_route"
+    b = prog.bodies.get(fn)
+    chk.floor("parse_route", 1 if b else 0, 1)
+    if not b:
+        return
+    n = 0
+    for blk_i, blk_ in enumerate(b.blocks):
+        for s_ in blk_["stmts"]:
+            rv = s_.get("rv")
+            if rv and rv.get("k") == "agg" and str(rv.get("adt", "")).endswith("RouteConfig"):
+                n += 1
+                for f_, o_ in zip(rv["fields"], rv["ops"]):
+                    if f_ == "matches":
+                        continue
+                    d_ = describe(prog, b, o_)
+                    used_up = sorted(set(core.short(c[1]) for c in core.desc_calls(d_) if core.re.search(
+                        r"Option::<T>::(take|take_if|replace|get_or_insert\w*)$|mem::(take|replace|swap)$|::(pop|pop_front|pop_back|remove|swap_remove|drain|split_off)$|Iterator>?::next$", c[1])))
+                    multi_state = desc_contains(d_, lambda y: y[0] == "multi" and len(y) > 3 and (b.locals[y[3]].get("user") if y[3] < len(b.locals) else False) and
+                                                any(isinstance(a, tuple) and a and a[0] == "call" and core.re.search(r"Option::<T>::take$|mem::take$", a[1]) for a in y[1]))
+                    chk.ob("R3.per_pattern", fn, f"RouteConfig.{f_} does not depend on the patterns before it", not used_up and not multi_state,
+                           f"{f_} is taken out of a value with {used_up}: only the first pattern of `route /a, /b` gets it", where=b.where(blk_i))
+    chk.floor("RouteConfig construction sites", n, 3)
 
 
 def quoted_values(chk, prog):
@@ -414,6 +474,7 @@ def run(chk):
     error_lines(chk, prog)
     line_source(chk, prog)
     ordering(chk, prog)
+    per_pattern_routes(chk, prog)
     quoted_values(chk, prog)
     defaults(chk, prog)
     # R6: no crash (shared engine)
